@@ -289,3 +289,14 @@ def CW(a: int, b: int = 7):
     x = workflow.add(Node(x=a, tag=1), name="x")
     y = workflow.add(Pair(x=x.out, y=b, tag=2), name="y")
     return y.out
+
+
+from pydra.utils.messenger import Messenger  # noqa: E402
+
+
+class ListMessenger(Messenger):
+    """in-memory messenger (public plug-in API); records go to vf.rec.MSGS"""
+
+    def send(self, message, **kwargs):
+        import vf.rec as R
+        R.MSGS.append(dict(message))
